@@ -3,6 +3,7 @@ package drive
 import (
 	"bytes"
 	"context"
+	"fmt"
 	"regexp"
 	"runtime/pprof"
 	"sort"
@@ -197,13 +198,25 @@ func CancelRun(run, progIdx int, p *prog.Program, cancelAt int, o Options, label
 					// nobody answers: the token stays at the task, the monitor parks in its second phase
 					q = nil
 				}
+				// a program tagged "errhandler-pending": the second request is answered with an error
+				// whose handler never decides -- the token waits for the decision until the cancel
+				// comes (for the game the token stops there, as with an exit decision)
+				pending := p.HasTag("errhandler-pending") && q != nil && q.occ == 1 && len(r.reqs) == 2
 				if q != nil && !can {
 					q.answered = true
-					r.add(Rec{Ev: "ans", Node: id, Occ: q.occ})
+					if pending {
+						r.add(Rec{Ev: "ans", Node: id, Occ: q.occ, Kind: "exit"})
+					} else {
+						r.add(Rec{Ev: "ans", Node: id, Occ: q.occ})
+					}
 				}
 				r.mu.Unlock()
 				if q != nil && !can {
-					go t.Do()
+					if pending {
+						go t.Do(bpmn.DoWithErrHandle(fmt.Errorf("boom"), make(chan bpmn.ErrHandler)))
+					} else {
+						go t.Do()
+					}
 				}
 			case bpmn.ActiveListeningTrace:
 				if idp, ok := t.Node.Id(); ok {
